@@ -122,3 +122,15 @@ func TestVerifReplayF12ForgedCursor(t *testing.T) {
 		t.Fatalf("VERIF-REPRODUCED F12: a forged cursor reached the kernel as SearchPromises=%v (the coroutine dereferences it / asserts id and limit): %v", fmt.Sprint(k.seen.SearchPromises), herr)
 	}
 }
+
+// F19 (C15): CreateSchedule never sets the noop flag; the kernel answers an idempotent re-creation with StatusOK.
+func TestVerifReplayF19ScheduleNoopFlag(t *testing.T) {
+	k := &vfKernel{res: &t_api.Response{Kind: t_api.CreateSchedule, CreateSchedule: &t_api.CreateScheduleResponse{Status: t_api.StatusOK}}}
+	res, err := vfServer(k).CreateSchedule(context.Background(), &pb.CreateScheduleRequest{Id: "s", Cron: "* * * * *", PromiseId: "p"})
+	if err != nil {
+		t.Fatal(err)
+	}
+	if !res.Noop {
+		t.Fatalf("VERIF-REPRODUCED F19: the kernel answered the re-creation of an existing schedule with status %d (nothing was created) but the reply says noop=false", t_api.StatusOK)
+	}
+}
